@@ -5,7 +5,7 @@
 // ASSUME: environment = an abstract work ledger with the discipline of ForEachExecutor::go(): a thread takes a unit from a shared pool (sets didWork), may create one new unit while holding one, and calls localTermination(didWork) only when it holds nothing; the pool is ghost state, so taking/creating work is atomic with the neighbouring scheduling point
 // ASSUME: initializeThread() of every thread has completed before any localTermination() (in the executor a barrier enforces this; barriers are C05)
 // ASSUME: PerThreadStorage runs over the harness environment C15_env.h (512-byte per-thread blocks from calloc; real PerThreadStorage.cpp)
-// OB: ob_ring_T2 tier=quick unwind=90 timeout=1500 solver=cadical bounds="ring detector: T=2, <=2 report rounds per thread, <=2 initial work units + <=1 created, 44 steps" desc="soundness: termination is never observed while the pool is non-empty or a thread holds work or has an unreported didWork"
+// OB: ob_ring_T2 tier=quick unwind=90 timeout=1500 solver=cadical bounds="ring detector: T=2, <=2 report rounds per thread, <=2 initial work units + <=1 created, 44 steps; the unchanged detector cannot announce within two rounds (both initial black marks must be flushed first), so this obligation catches PREMATURE announcements only - histories that reach an announcement are ob_ring_deep_T2 (thorough)" desc="soundness: termination is never observed while the pool is non-empty or a thread holds work or has an unreported didWork"
 // OB: ob_ring_live_T2 tier=quick unwind=90 timeout=1500 solver=cadical bounds="ring detector: T=2, arbitrary prefix of <=2 rounds per thread, then round-robin idle reports: termination within 3*T+2 reports per thread" desc="bounded liveness once everybody is idle; re-arming for a second loop with a different thread count"
 // OB: ob_ring_deep_T2 tier=thorough unwind=100 timeout=3600 solver=cadical mem_gb=12 bounds="ring detector: T=2, master <=4 report rounds, other thread <=3 (the shortest histories in which the unchanged detector can announce: both initial black marks are flushed, then two clean rounds), <=1 initial work unit + <=2 created, 84 steps" desc="soundness on histories long enough to reach an announcement: termination is never observed while the pool is non-empty or a thread holds work or has an unreported didWork"
 // OB: ob_tree_T2 tier=attic unwind=90 timeout=1500 solver=cadical bounds="tree detector: T=2, <=2 report rounds per thread, 56 steps" desc="soundness of the tree detector"
